@@ -700,6 +700,10 @@ func (w *World) Block() bool {
 			e.Violate("C12", "restart-failed", fmt.Sprintf("reopening after commit %d failed: %v", e.H, err), nil)
 			return false
 		}
+		// a freshly restarted node answers reads before it executes its next block
+		for k := 0; k < 1+w.R.Intn(4) && !e.Dead; k++ {
+			w.RandomRead()
+		}
 	}
 	return true
 }
